@@ -294,6 +294,36 @@ def immutables(prog: Program, rep) -> None:
                          f"VIOLATED: {ci.name}.{attr} is written outside construction; {ci.name} objects outlive a solve, so this state is carried into the next one", m.loc(node))
         else:
             rep.ok("immutable-long-lived-object", ci.qualname, f"attribute stores only in __init__ / init-only helpers / cached properties (exceptions: {sorted(allowed) or 'none'})")
+    # ... transitively: an object a long-lived object builds and keeps (a cache, a memo, a work buffer, a helper of a new class)
+    # lives as long as its owner, so its class must not change after construction either
+    seen = set(IMMUTABLE_AFTER_INIT)
+    todo = [(prog.cls(q), prog.cls(q).name) for q in IMMUTABLE_AFTER_INIT]
+    depth = {prog.cls(q).qualname: 0 for q in IMMUTABLE_AFTER_INIT}
+    while todo:
+        ci, chain = todo.pop()
+        for m in ci.methods.values():
+            for st in own_nodes(m.node):
+                if not (isinstance(st, (ast.Assign, ast.AnnAssign)) and getattr(st, "value", None) is not None):
+                    continue
+                tgs = st.targets if isinstance(st, ast.Assign) else [st.target]
+                if not any(is_self_attr(t) for t in tgs):
+                    continue
+                for c in ast.walk(st.value):
+                    if not isinstance(c, ast.Call):
+                        continue
+                    for t in prog.resolve_call_target(m, c):
+                        if isinstance(t, ClassInfo) and t.qualname not in seen and prog.in_scope(t) and depth[ci.qualname] < 3:
+                            seen.add(t.qualname)
+                            depth[t.qualname] = depth[ci.qualname] + 1
+                            todo.append((t, f"{chain} -> {t.name}"))
+                            n += 1
+                            bad = class_is_immutable_after_init(prog, t, {})
+                            for m2, node, attr in bad[:2]:
+                                rep.fail("immutable-long-lived-object", m2.qualname, U(node)[:80],
+                                         f"VIOLATED: {t.name}.{attr} is written outside construction, and a {t.name} is kept by a long-lived object ({chain} -> {t.name}): "
+                                         f"this state is carried from one evaluation / solve into the next", m2.loc(node))
+                            if not bad:
+                                rep.ok("immutable-long-lived-object", t.qualname, f"kept by {chain}: attribute stores only in construction")
     rep.pin("long-lived classes checked for immutability", n, 10)
     # exceptions must stay observer-only: num_evals flows only into logging
     for fi in prog.iter_functions():
